@@ -7,22 +7,22 @@ HERE = os.path.dirname(os.path.dirname(os.path.abspath(__file__)))
 
 CLAIMED = {
     # id: (technique, level text, level note, design_ref)
-    'C01': ('CBMC/DFCC function + loop contracts over a ghost-versioned state model, on code extracted from /repo each run',
+    'C01': ('CBMC/DFCC function + loop contracts over a ghost-versioned state model; update formulas as bounded SMT VCs over the reals (n <= 3); all on code extracted from /repo each run',
             'proof of the truthfulness clause for gd, cgd-*, lbfgs, bfgs/dfp/sr1/hoshino/fletcher (their four do_minimize bodies, solver_t::done, lsearch_t::get, gradient_test): a returned `converged` state passed its own gradient test max|g|/max(1,|f|) < epsilon on one consistent evaluation, for every function, line search and tolerance; the convergence-within-1500-evaluations sentence is not decided',
             'vector algebra erased (purity-checked), state constructor/update and Eigen lpNorm assumed, line search by the contract proved in C07 (refinement lemma checked)', '7/C01'),
-    'C02': ('CBMC/DFCC function + loop contracts over a ghost-versioned state model, on code extracted from /repo each run',
+    'C02': ('CBMC/DFCC function + loop contracts over a ghost-versioned state model (all solver bodies incl. the constrained ones), SMT lemmas over the reals for the f <= f0 chain and the gradient-sampling preconditioner, on code extracted from /repo each run',
             'proof for solver_t::done, lsearch_t::get and the do_minimize bodies shared by the 17 line-search solvers: status in {converged,max_iters,failed}; non-failed => valid (finite value and point); reported (x,f,g) is one consistent evaluation; reported counts <= evaluations performed; budget loop terminates and overshoots max_evals by at most one line search; the remaining solver bodies and the numeric clauses are not decided',
             'vector algebra erased (purity-checked), evaluation counting via ghost counter (function_t counters assumed to count evaluations), line search by the contract proved in C07', '7/C02'),
-    'C03': ('CBMC/DFCC function + loop contracts on code extracted from /repo each run',
+    'C03': ('CBMC/DFCC function + loop contracts (bundle invariant, stop-test protocols); ellipsoid update and bundle linearisation identities as bounded SMT VCs over the reals; on code extracted from /repo each run',
             'proof of the bundle representation invariant that every reported result of RQB/FPBA rests on: 0 < size < capacity after the constructor path, append and moveto; every index written into the bundle buffers < capacity; delete_largest reads the multipliers inside [0,size) and a full bundle loses at least `count` entries; the eps-optimality certificate itself (convex analysis on values) and the ellipsoid clauses are not decided',
             'cardinality lemma for std::nth_element + nano::remove_if assumed (stated in specs/C03/bundle.h); matrix contents, smeared_e/s and the QP solve erased', '7/C03'),
-    'C04': ('CBMC/DFCC function + loop contracts over ghost value identities for the Eigen algebra, plus SMT VCs over the reals for make_smax, on code extracted from /repo each run',
+    'C04': ('CBMC/DFCC function + loop contracts over ghost value identities for the Eigen algebra (decision protocol, dispatch); SMT VCs over the reals for residual definitions, normalisation / un-scaling, interior-point invariant, Newton step, reduce (bounded shapes) and generic-coordinate versions (any size); on code extracted from /repo each run',
             'proof of the decision protocol of the primal-dual interior-point solver: done() sets converged iff the program is feasible at the returned x and each of eta, |rdual|, |rprim| is below epsilon (NaN never converges), else unbounded/unfeasible; an infeasible start is rejected without iterating; every exit sets a status and converged/unbounded/unfeasible only through done(); x, u, v advance by one common step that passed the strict-feasibility test; solve_without_inequality status logic; make_smax in (0,1] keeps u + s du >= 0; all numeric tolerances and restatement invariance are not decided',
             'Eigen operators as pure functions of operand identities; program_t::update/solve frames assumed; three IEEE facts; double as real in the make_smax VCs', '7/C04'),
     'C05': ('weakest-precondition VCs over the reals (z3/cvc5) for the penalty kernels + CBMC/DFCC loop contract for the AL solver protocol, both on code extracted from /repo each run',
             'proof (over R) that the per-constraint value and gradient coefficient of the linear, quadratic and augmented-Lagrangian penalty functions equal the defining formulas incl. gating and multiplier indexing; proof that the augmented-Lagrangian solver reports converged only for a valid state whose constraint violation is <= epsilon, with constraint values recomputed at the returned point',
             'double treated as real for the formulas; constraint value/gradient code, Eigen coefficient-wise semantics, inner solver and make_criterion lifting assumed', '7/C05'),
-    'C07': ('CBMC/DFCC function + loop contracts over a ghost-versioned state model, on code extracted from /repo each run',
+    'C07': ('CBMC/DFCC function + loop contracts over a ghost-versioned state model; SMT VCs over the reals for predicate formulas, step sanity, dcstep / interpolation kernels against their reference, CG_DESCENT composition; on code extracted from /repo each run',
             'proof for lsearchk_t::get/update and the backtrack, LeMarechal, Fletcher(+zoom) bodies: success is returned only right after the advertised predicates were evaluated true on the current trial point with the returned step, the state is then the valid evaluation at x+t*d, a non-descent direction is refused with the state untouched, every loop terminates',
             'state.update(x) = one evaluation at x (assumed), interpolation havocked, parameters inside their registered domains; success on quadratics and CG_DESCENT/More-Thuente bodies not decided', '7/C07'),
     'C08': ('CBMC/DFCC function + loop contracts on code extracted from /repo each run',
@@ -31,10 +31,10 @@ CLAIMED = {
     'C09': ('CBMC/DFCC function + loop contracts on code extracted from /repo each run; bounded SMT VCs for the regularisation terms',
             'proof that sum_reduce/min_reduce combine every per-thread accumulator exactly once and normalise once, that the linear and gboost accumulators clear/add/divide all their fields, and that the dataset iterators hand map() the sample count and batch size and each task the inputs/targets of exactly its range; regularisation formulas only bounded (|W| <= 3, reported as bounded); loss values, re-association and every concurrency effect are not decided',
             'pool_t::map by the contract proved in C17; Eigen coefficient-wise semantics assumed', '7/C09'),
-    'C10': ('CBMC/DFCC function + loop contracts on code extracted from /repo each run',
+    'C10': ('CBMC/DFCC function + loop contracts (predict / split consistency, fit sweeps, accumulator, clustering) + SMT lemmas over the reals for the minimum-RSS clauses, on code extracted from /repo each run',
             'proof of the consistency clauses: loop_scalar/sclass/mclass call the operator exactly once per given (non-missing) value with in-range sample positions; stump and table predict add the table row of exactly the group that split() assigns (missing or unknown values: nothing); scale multiplies row i by scale[min(i,n-1)] exactly once; merge nulls a learner only after a successful try_merge into an earlier one and keeps the rest in order; the RSS-optimality clause is not decided',
             'select_iterator loop, Eigen row operations, cluster_t::assign, try_merge, std::remove_if/lower_bound assumed; fitted-learner shape invariants assumed', '7/C10'),
-    'C11': ('CBMC/DFCC function contract on code extracted from /repo each run',
+    'C11': ('CBMC/DFCC function + loop contracts (monitor transition, history lemma by harness loop contract, fit protocols with ghost provenance) + SMT lemma over the reals for fold averaging, on code extracted from /repo each run',
             'proof of the early-stopping monitor transition (whole abstract state in the postcondition, frame = its three members) for every observation and prior state; statistics-equality clauses not decided',
             'mean_error assumed deterministic; clang AST + cxx2c printer + CBMC trusted', '7/C11'),
     'C12': ('weakest-precondition VCs over Int (z3/cvc5) with loop invariants on the extracted splitter/sampler bodies + CBMC/DFCC contracts for the gboost sampler and generator lambdas',
@@ -52,13 +52,13 @@ CLAIMED = {
     'C16': ('weakest-precondition VCs over mathematical integers (z3/cvc5), one contract per template recursion level, overflow as explicit obligations',
             'proof that index/index0/size/dims0 and every level of get_index/get_index0/product/get_dims0 (ranks 1..5) equal the row-major spec functions without intermediate overflow, plus bijection/monotonicity lemmas on the spec functions',
             'tensor invariant (extents >= 0, suffix products <= 2^62) is a stated precondition; std::get/std::array semantics assumed', '7/C16'),
-    'C17': ('CBMC/DFCC function + loop contracts (sequential, monitor semantics for condition_variable::wait) and SMT VCs over Int, on code extracted from /repo each run',
+    'C17': ('CBMC/DFCC function + loop contracts (sequential, monitor semantics for condition_variable::wait), SMT VCs over Int, and a BOUNDED CBMC interleaving check of the extracted code (submitter + one worker, labelled bounded), on code extracted from /repo each run',
             'proof that pool_t::map generates tasks that tile [0,elements) exactly once for every elements/chunk size (count = reserve count), passes worker ids below the pool size, enqueues under the lock and returns only after the section waited for every task; worker loop pops only a non-empty queue and exits only on stop; constructor/destructor/section protocol; ALL interleaving claims (exactly-once execution across workers, no concurrent reuse of a worker id, completion under every schedule, deadlock-free shutdown) are NOT decided by this technique',
             'std::mutex/condition_variable/deque/packaged_task/future basics assumed; task generation and sequential worker protocol only', '7/C17'),
     'C19': ('CBMC/DFCC function contracts (check-then-assign) on code extracted from /repo each run, std::variant dispatch printed from clang\'s overload resolution',
             'proof for every parameter kind that an accepted assignment stores the converted value inside the declared domain and a rejected one throws leaving the whole record (both halves of a pair) unchanged; the domain predicate is an invariant of the storage; constructors reject out-of-domain defaults; kind-mismatched reads/assignments throw; unknown names throw and duplicate registrations leave the list unchanged; clone equality and factory ids are not decided',
             'std::variant/visit semantics, std::find/find_if, string parsing (stoll/stod) as deterministic uninterpreted functions assumed', '7/C19'),
-    'C20': ('CBMC/DFCC function contract on code extracted from /repo each run',
+    'C20': ('CBMC/DFCC function + loop contracts (bin rule, update, constructor / factories, mean with the accumulator typed by init, median against the sorted-array reference) + SMT VCs over Int / Real for percentile positions, on code extracted from /repo each run',
             'proof that histogram_t::bin(v) equals the counting rule #{j: t_j <= v} for every finite real v / integer |v|<=2^53 and every sorted threshold list of symbolic length',
             'std::upper_bound partition-point contract assumed (ghost index); thresholds sorted, not NaN', '7/C20'),
     'C18': ('CBMC/DFCC frame conditions (assigns clauses) on code extracted from /repo each run, struct layouts generated from clang\'s class definitions; a token-level scan of mutable/static state as a labelled lint',
